@@ -403,7 +403,8 @@ Section sound.
       - apply wt_i8_inv in Hi as (z & -> & _). exists z; reflexivity.
       - apply wt_int_inv in Hi as (z & ->). exists z; reflexivity. }
     destruct Hz as (z & Hz). unfold get_index. rewrite Hz.
-    destruct ((z <? 0) || (Z.of_nat (length l) <=? z)); [exact I|].
+    destruct (int_ovf z); [exact I|].
+        destruct ((z <? 0) || (Z.of_nat (length l) <=? z)); [exact I|].
     destruct (nth_error l (Z.to_nat z)) as [x|] eqn:En; [|exact I].
     rewrite wfv_arr in Hw. pose proof (forallb_nth _ _ _ _ Hw En) as Hx.
     unfold elem_ok in Hx. apply andb_true_iff in Hx as [Hx1 Hx2].
@@ -551,9 +552,13 @@ Section sound.
           split; [assumption | apply env_ok_app_r; assumption].
         * destruct (Huni eq_refl) as [_ <-]. simpl.
           split; [assumption | apply env_ok_app_r; assumption].
-    - (* EForce *) inv_check Hc. simpl.
-      ih_e IH E He va r1 Hva He1. simpl.
-      apply wt_opt_inv in Hva as [-> | (w & -> & Hw)]; simpl; [exact I | split; assumption].
+    - (* EForce *) inv_check Hc; simpl; ih_e IH E He va r1 Hva He1; simpl;
+        try (apply wt_opt_inv in Hva as [-> | (w & -> & Hw)]; simpl; [exact I | split; assumption]).
+      all: destruct va; simpl; try (split; assumption); try exact I.
+      all: split; [|assumption]; apply wt_intro;
+        [ exact (wt_wfv D _ _ Hva)
+        | apply subtype_opt_nonopt; [exact (wt_sub D _ _ Hva) | reflexivity]
+        | reflexivity ].
     - (* EMember *) inv_check Hc. simpl.
       ih_e IH E He va r1 Hva He1. simpl.
       rewrite (member_check_ok _ _ Hva). simpl.
@@ -897,8 +902,9 @@ Section sound.
       + ih_b IHb E1 He1 o r2 Heo Hout. simpl.
         split; [apply env_ok_app_r; assumption | apply out_ok_and_r; assumption].
     - (* SIfLet *) inv_check Hc. clear Hc0. simpl.
-      ih_e IH E He v r1 Hv He1. simpl.
+      ih_e IH E He v0 r1 Hv0 He1. simpl.
       rewrite (env_ok_length D _ _ _ He1).
+      do_transfer (wt_wfv D _ _ Hv0) (wt_sub D _ _ Hv0) (subtype_refl (TOpt t)) v Hv. simpl.
       apply wt_opt_inv in Hv as [-> | (w & -> & Hw)].
       + ih_b IHb E1 He1 o r2 Heo Hout. simpl.
         split; [apply env_ok_app_r; assumption | apply out_ok_and_r; assumption].
